@@ -64,7 +64,7 @@ func (vc *VC) safetyCheck(name, pos, text, alive, cond string, st *State) {
 		return
 	}
 	if vc.safety {
-		vc.oblige("safety", name, pos, text, alive, cond, []string{"C14"})
+		vc.oblige("safety", name, pos, text, alive, cond, []string{vc.safetyTag()})
 	}
 	vc.assume(alive, cond)
 }
@@ -221,3 +221,14 @@ func (vc *VC) havocModified(cur *State, modH, modG map[string]bool, log []writeR
 }
 
 var _ = types.Typ
+
+// safetyTag is the property a panic-freedom obligation is reported under: the property being checked
+// (C14 is the property that states panic freedom as such; C11 and C17 include it for their own functions).
+func (vc *VC) safetyTag() string {
+	for _, p := range []string{"C14", "C11", "C17"} {
+		if vc.slice[p] {
+			return p
+		}
+	}
+	return "C14"
+}
